@@ -6,8 +6,10 @@ import (
 	"go/token"
 	"go/types"
 	"math"
+	"os"
 	"strings"
 	"sync"
+	"time"
 
 	"golang.org/x/tools/go/ssa"
 )
@@ -71,6 +73,9 @@ type Exec struct {
 	stack     []*ssa.Function
 	quotSplits int
 	pcDirty   bool
+	defCache  map[string]string
+	radixDerived int
+	floorLemmas int
 	radixes   map[string]*radix
 	radixSplits int
 	digitIdent int
@@ -156,6 +161,9 @@ func (e *Exec) assume(b Bool) {
 // feasible asks whether pc ∧ t is satisfiable; unknown counts as feasible.
 func (e *Exec) feasible(t *Term) bool {
 	r := e.sol.CheckWith(t.Name)
+	if slowLog && e.sol.lastDur > time.Second {
+		fmt.Fprintf(os.Stderr, "SLOW %.1fs feasibility %s -> %s at %s\n", e.sol.lastDur.Seconds(), t.Name, r, e.posStr(e.curPos))
+	}
 	if r == "unknown" {
 		e.unknowns++
 	}
@@ -289,6 +297,9 @@ func (e *Exec) check(ok Bool, kind, label, msg string) {
 	e.sol.Push()
 	e.sol.Send("(assert " + nb.S.Name + ")")
 	r := e.sol.Check()
+	if slowLog && e.sol.lastDur > time.Second {
+		fmt.Fprintf(os.Stderr, "SLOW %.1fs %s %q -> %s at %s\n", e.sol.lastDur.Seconds(), kind, label, r, e.posStr(e.curPos))
+	}
 	if r == "sat" {
 		e.recordViolation(kind, label, msg)
 	} else if r == "unknown" {
@@ -1639,3 +1650,5 @@ func typeStr(t types.Type) string {
 	typeStrCache.Store(t, s)
 	return s
 }
+
+var slowLog = os.Getenv("VERIF_SLOWLOG") == "1"
